@@ -254,11 +254,18 @@ func runCheck(o *checkOpts) int {
 			if len(rp.obl.Using) > 0 {
 				extra = rp.obl.ctx.lemmaAxioms(rp.obl.Using, nil)
 			}
-			q := rp.obl.query(extra, o.timeout*1000)
-			if o.dump != "" {
-				os.WriteFile(filepath.Join(o.dump, sanitize(rp.Name)+".smt2"), []byte(q), 0o644)
+			qs := []string{rp.obl.queryVariant(extra, 0)}
+			if len(rp.obl.ctx.recForms) > 0 {
+				qs = append(qs, rp.obl.queryVariant(extra, 1))
 			}
-			res := runSolvers(rp.Name, q, o.timeout, o.tier == "thorough", nil)
+			if o.dump != "" {
+				os.WriteFile(filepath.Join(o.dump, sanitize(rp.Name)+".smt2"), []byte(qs[0]), 0o644)
+			}
+			to := o.timeout
+			if rp.obl.Vacuity && to > 4 {
+				to = 4
+			}
+			res := runSolvers(rp.Name, qs, to, o.tier == "thorough" && !rp.obl.Vacuity, nil)
 			rp.res = res
 			rp.Solver = res.Solver
 			rp.Seconds = res.Seconds
